@@ -22,6 +22,9 @@ def main():
         if c.extra.get('instances') == 'relative_unpack-formats':
             for f in units.formats_in_repo(repo):
                 jobs.append((qn, {'fmt': f}))
+        elif c.extra.get('type_instances'):
+            for label, tys in c.extra['type_instances'].items():
+                jobs.append((qn, {'@types': dict(tys), '@label': label}))
         else:
             jobs.append((qn, None))
     for qn, inst in jobs:
